@@ -9,4 +9,7 @@ CONSTANTS
   FixAbove = TRUE
   FixLookup = TRUE
   FixOrphan = TRUE
+  PrunedRewind = FALSE
+  FixDisplaced = TRUE
+  KeepDescendants = TRUE
 INVARIANTS NoPanic TypeOK TdAdditiveInv CanonIsAncestryInv NothingAboveHeadInv
